@@ -147,6 +147,9 @@ def run(an: Analysis, rep):
     shfold = SharedRules(rep, "R01.E", "decoder and encoder folded over witness code units / block lists / tables (shared with C02's R02.F, C03's R03.E / R03.T / R03.Y, C10's R10.F, "
                          "C11's R11.5): what the decoder reports is what CPython's disassembler reports and what the encoder writes reads back as the data - both are needed for to_code(from_code(c)) == c")
     from . import line_fold as _lf
+    from . import c05 as _c05d
+    rep.run(_c05d.r053, an, SharedRules(rep, "R01.D2", "the encoder reserves the first constant for None only where CPython's compiler does (shared with C05's R05.3): a comprehension whose first "
+                                                       "constant is not a string must not get a None in front"))
     rep.run(c02.r02f, an, shfold)
     rep.run(c03.r03e, an, shfold)
     rep.run(c03.r03t, an, shfold)
@@ -203,7 +206,8 @@ def r012(an: Analysis, rep, V):
             if exp in TABLE_ATTRS:
                 foreign = (attrs & TABLE_ATTRS) - {exp}
             elif exp in SCALAR_ATTRS:
-                foreign = (attrs & SCALAR_ATTRS) - {exp}
+                # a number copied through the data: nothing else may flow into it (a first line "corrected" by the lines of the instructions is another number)
+                foreign = {a for a in attrs if a.startswith("co_")} - {exp}
             if s == "nlocals":
                 foreign = (attrs & TABLE_ATTRS) - {"co_varnames"}
             rep.add("R01.2", key, not foreign, w,
@@ -462,6 +466,13 @@ def r015(an: Analysis, rep, V):
     dv, dorg, df, dn, dm = signs["decode"]
     ev, eorg, ef, en, em = signs["encode"]
     ok = dv == 5 and ev == -5 and any(a[2][:1] == (("a", "co_firstlineno"),) for a in dorg) and any(a[2] == (("a", "first_line_number"),) for a in eorg)
+    # ... and by nothing else: an amount computed from the lines as well (min(first line, lowest line)) is another number for code whose table steps backwards
+    d_other = sorted({".".join(str(x[-1]) for x in a[2]) for a in dorg if a[2][:1] != (("a", "co_firstlineno"),)})
+    e_other = sorted({".".join(str(x[-1]) for x in a[2]) for a in eorg if a[2] != (("a", "first_line_number"),)})
+    rep.add("R01.5", "first-line offset: the amount is the first line number and nothing else", not d_other and not e_other, loc(ef.module, en) if e_other else loc(df.module, dn),
+            "both amounts are computed from the first line number alone" if not d_other and not e_other else
+            f"the amount the {'encoder' if e_other else 'decoder'} shifts by, `{norm_src((en if e_other else dn).args[0])}`, also depends on {(e_other or d_other)[:3]}: for a code object with an "
+            f"instruction on a line before co_firstlineno (the table holds signed steps) the lines are shifted by another amount than they were decoded with", config=cfg)
     rep.add("R01.5", "first-line offset: +co_firstlineno when decoding, -first_line_number when encoding", ok, loc(ef.module, en),
             f"decode shifts by {norm_src(dn.args[0])}, encode by {norm_src(en.args[0])}" if ok else
             f"decode shifts lines by {norm_src(dn.args[0])} (sign {'+' if dv > 0 else '-'}), encode by {norm_src(en.args[0])} (sign {'+' if ev > 0 else '-'}): not inverse", config=cfg)
